@@ -20,6 +20,7 @@ Correspondence streams (model `lean/Model/C05/*` vs the real btclib, same op lin
   psbtin|psbtout|psbtglobal.torecs <ver> <whole>,<keyed>,<unknown>   objects built by the CONSTRUCTORS (no parser),
       each field's value through btclib's own field serializer; the model runs its serialize loop (version gate,
       finalizer rule, truthiness, order) on the same fields
+  json.<class>.to / json.<class>.from  the JSON form of OutPoint, Witness, TxIn, TxOut, Tx: see harness/c05_json.py
 Property oracles on the real code alone: `harness/c05_oracles.py` (round trips of every class with a
 parse/serialize or to_dict/from_dict pair) and the ones below.
 """
@@ -313,7 +314,7 @@ def impl(line: str) -> str:
     from . import c05_extra
     if t[0] in c05_extra.OPS and len(t) == 3:
         return c05_extra.OPS[t[0]](t[1], unhx(t[2]))
-    return "bad-op"
+    return "bad-op"   # json.* lines are answered from the objects / dicts themselves (harness/c05_json.py)
 
 
 # ------------------------------------------------------------------ property oracles (real code only)
@@ -969,8 +970,9 @@ def run(ctx):
     for op, cases in per_op.items():
         ctx.correspond(op.replace(".parse", "") + ".ser", EXE, cases)
 
-    from . import c05_extra
+    from . import c05_extra, c05_json
     c05_extra.run(ctx)
+    c05_json.run(ctx, objects)
     if c05_oracles is not None and hasattr(c05_oracles, "run"):
         c05_oracles.run(ctx)
     else:
